@@ -1201,7 +1201,7 @@ func ruleC16Clone(c *Ctx) {
 	c.eachFam(m.fn, func(i ssa.Instruction) {
 		switch x := i.(type) {
 		case *ssa.Store:
-			if fa, ok := x.Addr.(*ssa.FieldAddr); ok && c.ownerName(fa.X.Type()) == "Schema" {
+			if fa, ok := x.Addr.(*ssa.FieldAddr); ok && c.fieldOwner(fa) == "Schema" {
 				check(x.Val, x, "store:"+c.fieldName(fa.X.Type(), fa.Field))
 			}
 			if a, ok := x.Addr.(*ssa.Alloc); ok && a.Comment == "" {
